@@ -31,6 +31,15 @@ func (fr *Frame) doCall(cc *ssa.CallCommon, fnv Value, args []Value, pc *Term, s
 	}
 	if f.Fn == nil {
 		ex.oblige("nil", "call "+exprAtPos(ex, pos), pos, pc, Neq(f.ID, RefNil()), "function value is not nil")
+		if ex.ctx.chanDisc(cc.Value) == "logged" {
+			// the call is recorded in the ghost event log "call": first pointer argument
+			for _, a := range args {
+				if p, ok := a.(PtrV); ok && p.Kind == PHeap {
+					ex.event(st, "call", p.Ref, pc)
+					break
+				}
+			}
+		}
 		if ex.ctx.isSink(cc.Value) {
 			for _, a := range args {
 				if sl, ok := a.(SliceV); ok {
